@@ -880,10 +880,10 @@ class Object(base.Symbolic, metaclass=ObjectMeta):
     setattr(self._sym_attributes, '_sym_nondefault_values', None)
     return self._sym_attributes.sym_nondefault(flatten=False)
 
-  def seal(self, sealed: bool = True) -> 'Object':
+  def sym_seal(self, is_seal: bool = True) -> 'Object':
     """Seal or unseal current object from further modification."""
-    self._sym_attributes.seal(sealed)
-    super().seal(sealed)
+    self._sym_attributes.seal(is_seal)
+    super().sym_seal(is_seal)
     return self
 
   def _update_children_paths(
